@@ -108,13 +108,15 @@ prop('C05',
            'synctest bubble, followed by a fair completion phase (all elements offered with the inputs still open, then inputs closed); oracle: list functions on the input; '
            'delivered is a prefix of the expected list at every receive, equal to it when the output closes, per-argument call counts and call order of the user function, '
            'number of elements removed from the input (Take/TakeWhile), early close of Take/TakeWhile without waiting for more input, no goroutine of the stage alive after completion; '
-           'plus Seq/ToSeq: ToSeq(chain(Seq(xs...))) for generated chains of Map/Filter/Take/TakeWhile/FMap over 0..24 (10%: 1000..2200) elements equals the list functions, the caller overwriting its slice right after Seq returned; the input buffer may already hold elements when the stage is created (Prefill); a fifth of the scenarios run an independent second instance of the stage alongside (own channels and context, must complete as if alone); a separate part streams elements of type any (nil interface, typed nils, zero values, non-comparable payloads) through Take/Filter/Map/TakeWhile; all scripts of 5 (thorough: 7) moves over {send, close, recv 0, recv 1, burst 2} are enumerated for every stage, capacity {0,1} and two inputs; non-trivial = input length >= 2 and (capacity < length or a quiescent point with a blocked producer / full buffer); distinct = different canonical scenario'),
+           'plus Seq/ToSeq: ToSeq(chain(Seq(xs...))) for generated chains of Map/Filter/Take/TakeWhile/FMap over 0..24 (10%: 1000..2200) elements equals the list functions, the caller overwriting its slice right after Seq returned; the input buffer may already hold elements when the stage is created (Prefill); a fifth of the scenarios run an independent second instance of the stage alongside (own channels and context, must complete as if alone); a separate part streams elements of type any (nil interface, typed nils, zero values, non-comparable payloads) through Take/Filter/Map/TakeWhile; all scripts of 5 (thorough: 7) moves over {send, close, recv 0, recv 1, burst 2} are enumerated for every stage, capacity {0,1} and two inputs; a separate part folds element objects of a pointer-typed carrier (Combine adds into its left operand, shared objects half of the time) twice and re-reads the objects afterwards; non-trivial = input length >= 2 and (capacity < length or a quiescent point with a blocked producer / full buffer); distinct = different canonical scenario'),
      assumptions=E3_ASSUME,
      parts=[
          dict(name='enum', engine='E3', pkg='pipes', test='TestC05Enum', kind='plain',
               quick=dict(shards=8), thorough=dict(shards=16, timeout=3000)),
          dict(name='any-elements', engine='E3', pkg='pipes', test='TestC05Any', replay_test='TestReplayAny',
               quick=dict(cases=4000, shards=1), thorough=dict(cases=100000, shards=4, timeout=3000)),
+         dict(name='fold-ref', engine='E3', pkg='pipes', test='TestC05FoldRef',
+              quick=dict(cases=3000, shards=1), thorough=dict(cases=60000, shards=4, timeout=3000)),
          dict(name='seq', engine='E3', pkg='pipes', test='TestC05Seq',
               quick=dict(cases=10000, shards=1), thorough=dict(cases=200000, shards=8, timeout=3000)),
          dict(name='rapid', engine='E3', pkg='pipes', test='TestC05',
